@@ -22,7 +22,7 @@ def mk_solver(kind, rec, kvals, dtval):
         i = len(rec["t"])
         rec["t"].append(t)
         rec["X"].append([x for x in X])
-        return kvals[i] if not callable(kvals) else kvals(i)
+        return kvals(i) if callable(kvals) else (kvals[i] if i < len(kvals) else kvals[-1])
 
     s.setdXdtFunctions(f, s.correctdXdtNotImplemented, lambda dXdt: dtval, s.flattenXNotImplemented, s.unflattenXNotImplemented)
     s._dtmin = 0.0
@@ -32,26 +32,31 @@ def mk_solver(kind, rec, kvals, dtval):
 
 
 def probe(kind, d=1):
-    """concrete linear probing of the real iterator: returns (c, a, b) as Fractions"""
+    """concrete affine probing of the real iterator around k_i = 1: returns (c, a, b) as Fractions, or None when the
+    iterator does not evaluate the model the nominal number of times"""
     it, ns, _ = ITER[kind]
     rat = lambda v: Fr(float(v)).limit_denominator(100000)
 
     def run(kv, t=0.0, dt=1.0, x0=0.0):
         rec = {"t": [], "X": []}
-        kvals = [np.array([kv[i]] * d, dtype=float) for i in range(ns)]
+        kvals = lambda i: np.array([kv[i] if i < ns else 0.0] * d, dtype=float)
         s = mk_solver(kind, rec, kvals, dt)
         xn, dtu = it(s._getdXdt, t, np.array([x0] * d, dtype=float), s._updateX)
         return rec, xn
-    rec0, x0 = run([0.0] * ns, t=0.0, dt=1.0)
+    rec0, xb = run([1.0] * ns, t=0.0, dt=1.0)
+    if len(rec0["t"]) != ns:
+        return None
     c = [rat(t) for t in rec0["t"]]
     a = [[Fr(0)] * ns for _ in range(ns)]
     b = [Fr(0)] * ns
     for j in range(ns):
-        kv = [0.0] * ns; kv[j] = 1.0
+        kv = [1.0] * ns; kv[j] = 2.0
         rec, xn = run(kv)
+        if len(rec["t"]) != ns:
+            return None
         for i in range(ns):
-            a[i][j] = rat(rec["X"][i][0])
-        b[j] = rat(xn[0])
+            a[i][j] = rat(rec["X"][i][0] - rec0["X"][i][0])
+        b[j] = rat(xn[0] - xb[0])
     return c, a, b
 
 
@@ -79,7 +84,11 @@ def tableau(ctx, kind="rk4", d=2):
     """linear form of the real iterator for symbolic t, dt, X_old, k_i; order conditions on the extracted tableau"""
     it, ns, _ = ITER[kind]
     order = 4 if kind == "rk4" else 1
-    c, a, b = probe(kind)
+    pr = probe(kind)
+    ctx.prove("iterator evaluates the model once per nominal stage (concrete probe)", pr is not None)
+    if pr is None:
+        return
+    c, a, b = pr
     t = ctx.real("t", (-2.0, 5.0)); dt = ctx.real("dt", (0.01, 2.0))
     ctx.assume(dt > 0); ctx.assume(dt < 1e29)
     X = ctx.reals("X", d, (-2.0, 2.0))
@@ -91,6 +100,8 @@ def tableau(ctx, kind="rk4", d=2):
     xn, dtu = it(s._getdXdt, t, X, s._updateX)
     ctx.observe("xnew", xn)
     ctx.prove("number_of_stages", len(rec["t"]) == ns)
+    if len(rec["t"]) != ns:
+        return
     for i in range(ns):
         ctx.prove("stage_time_is_t_plus_c_dt", ctx.eq(rec["t"][i], t + float(c[i]) * dt if c[i] != 0 else t + 0.0 * dt))
         for j in range(d):
@@ -121,7 +132,11 @@ def through_model(ctx, kind="rk4", d=2):
     called at the documented times, with states of the supplied layout, and the model's X is not modified"""
     from kawin.GenericModel import GenericModel
     it, ns, _ = ITER[kind]
-    c, a, b = probe(kind)
+    pr = probe(kind)
+    if pr is None:
+        ctx.prove("iterator evaluates the model once per nominal stage (concrete probe)", False)
+        return
+    c, a, b = pr
     t = ctx.real("t", (-2.0, 5.0)); dt = ctx.real("dt", (0.01, 2.0))
     ctx.assume(dt > 0); ctx.assume(dt < 1e29)
     X0 = [ctx.reals("A", d, (-2.0, 2.0)), ctx.reals("B", 1, (-2.0, 2.0))]
@@ -140,6 +155,9 @@ def through_model(ctx, kind="rk4", d=2):
     s._X0 = X0
     xn, dtu = it(s._getdXdt, t, m.flattenX(X0), s._updateX)
     xn = m.unflattenX(xn, X0)
+    ctx.prove("model_called_once_per_stage", len(seen["t"]) == ns)
+    if len(seen["t"]) != ns:
+        return
     for i in range(ns):
         ctx.prove("model_called_at_documented_time", ctx.eq(seen["t"][i], t + float(c[i]) * dt if c[i] != 0 else t + 0.0 * dt))
         ctx.prove("model_sees_supplied_layout", seen["shapes"][i] == [(d,), (1,)])
